@@ -190,13 +190,14 @@ example : ∀ e ∈ (crun conc0 sched0).written, FreshLoc conc0.h e.2 := by
 
 
 /-- (T) Shared mutable state outside the heap model: the package-level variables of the anchored packages that any
-    function other than `init` writes, re-extracted from the source on this run, are exactly these two — the registry
-    of inferred bindnode schemas (the recorded known finding) and the default multicodec registry, written only by its
+    function other than `init` writes, re-extracted from the source on this run, are exactly these — the registry
+    of inferred bindnode schemas and its memo table (the recorded known finding: written under a mutex, but read without one) and the default multicodec registry, written only by its
     registration functions (set-up by contract).  Every other package-level variable is written by `init` at most,
     i.e. shared state is confined to the heap cells the theorems above talk about.  A new writer breaks this. -/
 theorem globalWrites_src_inventory :
     Ipld.Generated.globalWrites_src =
-      [("node/bindnode", "defaultTypeSystem", ["inferSchema"]),
+      [("node/bindnode", "defaultTypeSystem", ["inferSchemaLocked"]),
+       ("node/bindnode", "inferredSchemas", ["inferSchemaLocked"]),
        ("multicodec", "DefaultRegistry", ["RegisterDecoder", "RegisterEncoder"])] := by decide
 
 end Ipld.Props.C20
